@@ -85,6 +85,8 @@ type c02case struct {
 	RF        int                  `json:"rf"`
 	ZoneAware bool                 `json:"zone_aware"`
 	TimeoutS  int64                `json:"timeout_s"`
+	// MovedFromZone: instance -> zone it sat in (same tokens) in the descriptor the client had loaded before
+	MovedFromZone map[string]string `json:"previously_in_zone,omitempty"`
 }
 
 func TestC02(t *testing.T) {
@@ -138,13 +140,46 @@ func TestC02(t *testing.T) {
 			cs := c02case{Insts: insts, RF: rf, ZoneAware: za, TimeoutS: timeoutS}
 			st := rk.NewStore()
 			st.RecordGets = false
-			st.Put("harness", rk.Key, rk.Desc(insts))
+			// in a third of the cases the client has a past: it first loaded a descriptor in which one instance sat in
+			// another (existing) zone with the same tokens, then the descriptor under test
+			var pre map[string]spec.Inst
+			if rng.IntN(3) == 0 && nz > 1 && len(insts) > 1 {
+				pre = map[string]spec.Inst{}
+				for id, in := range insts {
+					pre[id] = in
+				}
+				ids := make([]string, 0, len(insts))
+				for id := range insts {
+					ids = append(ids, id)
+				}
+				sort.Strings(ids)
+				mv := pre[ids[rng.IntN(len(ids))]]
+				other := insts[ids[rng.IntN(len(ids))]].Zone
+				if other != mv.Zone {
+					mv.Zone = other
+					pre[mv.ID] = mv
+					cs.MovedFromZone = map[string]string{mv.ID: other}
+				} else {
+					pre = nil
+				}
+			}
+			if pre != nil {
+				st.Put("harness", rk.Key, rk.Desc(pre))
+			} else {
+				st.Put("harness", rk.Key, rk.Desc(insts))
+			}
 			r, stop, err := rk.StartRing(rk.Cfg(rf, za, time.Duration(timeoutS)*time.Second), st.Client("ring"), rk.Key)
 			if err != nil {
 				run.Inconclusive("ring start: " + err.Error())
 				return
 			}
 			defer stop()
+			if pre != nil {
+				st.Put("harness", rk.Key, rk.Desc(insts))
+				time.Sleep(time.Second)
+				synctest.Wait()
+				run.Count("clients_with_a_previous_descriptor", 1)
+			}
 			time.Sleep(time.Until(time.Unix(now, 0)))
 			s.Enter(c, "crash/rings")
 			defer s.Leave()
